@@ -262,3 +262,94 @@ func c14CLI(cfg Config, rep *Report, rng *rand.Rand) {
 		}
 	}
 }
+
+// c11CLI: the store chains the command line builds (cmd/desync/store.go), driven through `desync cat`: several -s
+// stores form a router; `a|b` a failover group; -c a cache that fills itself, serves without upstream afterwards, and
+// with --cache-repair (the default) replaces a damaged cached chunk from upstream
+func c11CLI(cfg Config, rep *Report, rng *rand.Rand) {
+	bin := desyncBin()
+	if bin == "" {
+		rep.Notes = append(rep.Notes, "desync binary not built: command-line store chain runs skipped")
+		return
+	}
+	dir := filepath.Join(cfg.Work, "cli11")
+	defer os.RemoveAll(dir)
+	mon := func(caseLine, what string) {
+		rep.Disagree(Disagreement{Kind: "monitor", Case: caseLine, What: what})
+	}
+	for it := 0; it < cfg.N(3, 24); it++ {
+		os.RemoveAll(dir)
+		a, b, empty, cache := filepath.Join(dir, "a"), filepath.Join(dir, "b"), filepath.Join(dir, "empty"), filepath.Join(dir, "cache")
+		for _, d := range []string{a, b, empty, cache} {
+			os.MkdirAll(d, 0755)
+		}
+		blob := randBytes(rng, 30000+rng.Intn(20000))
+		full := newMemStore()
+		ch, _ := desync.NewChunker(bytes.NewReader(blob), 1024, 2048, 8192)
+		idx, err := desync.ChunkStream(context.Background(), ch, full, 2)
+		if err != nil || len(idx.Chunks) < 4 {
+			continue
+		}
+		sa, _ := desync.NewLocalStore(a, desync.StoreOptions{})
+		sb, _ := desync.NewLocalStore(b, desync.StoreOptions{})
+		k := 0
+		for id, data := range full.chunks { // a and b each hold about half, together everything
+			c, _ := desync.NewChunkWithID(id, data, false)
+			if k%2 == 0 {
+				sa.StoreChunk(c)
+			} else {
+				sb.StoreChunk(c)
+			}
+			k++
+		}
+		idxFile, out := filepath.Join(dir, "blob.caibx"), filepath.Join(dir, "out")
+		f, _ := os.Create(idxFile)
+		idx.WriteTo(f)
+		f.Close()
+		run := func(tag string, wantOK bool, args ...string) {
+			os.Remove(out)
+			r := runCLI(bin, nil, nil, 60*time.Second, append(append([]string{"cat", "--error-retry", "0"}, args...), idxFile, out)...)
+			got, _ := os.ReadFile(out)
+			caseLine := fmt.Sprintf("cli.chain it=%d chain=%s", it, tag)
+			rep.Count(caseLine, true, "cli.chain:"+tag, fmt.Sprintf("cli-exit0:%v", r.exit == 0))
+			switch {
+			case r.exit == 0 && !bytes.Equal(got, blob):
+				mon(caseLine, "desync cat exited with status 0 but the output is not the blob")
+			case wantOK && r.exit != 0:
+				mon(caseLine, "the chain holds every chunk but desync cat failed: "+clip(r.stderr, 300))
+			case !wantOK && r.exit == 0:
+				mon(caseLine, "desync cat succeeded although a chunk is in none of the stores of the chain")
+			}
+		}
+		dead := fmt.Sprintf("http://127.0.0.1:%d/", freePort())
+		run("router-a-b", true, "-s", a, "-s", b)
+		run("router-b-a", true, "-s", b, "-s", a)
+		run("single-a", false, "-s", a)
+		run("failover-dead-then-router", true, "-s", dead+"|"+a, "-s", b)
+		run("failover-a-then-dead", true, "-s", a+"|"+dead, "-s", b+"|"+dead)
+		run("dead-only", false, "-s", dead)
+		// cache: fills on a miss, then serves alone
+		run("cache-fill", true, "-s", a, "-s", b, "-c", cache)
+		sc, _ := desync.NewLocalStore(cache, desync.StoreOptions{})
+		for _, c := range idx.Chunks {
+			if _, err := sc.GetChunk(c.ID); err != nil {
+				mon(fmt.Sprintf("cli.chain it=%d chain=cache-fill", it), "after a run with -c the cache does not hold a chunk of the index: "+err.Error())
+				break
+			}
+		}
+		run("cache-alone", true, "-s", empty, "-c", cache)
+		// damage a cached chunk in place (same length) and run again with upstream: repaired; then alone again
+		id := idx.Chunks[rng.Intn(len(idx.Chunks))].ID
+		p := filepath.Join(cache, id.String()[:4], id.String()+".cacnk")
+		if cb, err := os.ReadFile(p); err == nil && len(cb) > 0 {
+			cb[rng.Intn(len(cb))] ^= 0x10
+			os.WriteFile(p, cb, 0644)
+			run("cache-damaged-alone", false, "-s", empty, "-c", cache)
+			run("cache-damaged-repair", true, "-s", a, "-s", b, "-c", cache)
+			if _, err := sc.GetChunk(id); err != nil {
+				mon(fmt.Sprintf("cli.chain it=%d chain=cache-damaged-repair", it), "the damaged cached chunk was not replaced from upstream: "+err.Error())
+			}
+			run("cache-alone-after-repair", true, "-s", empty, "-c", cache)
+		}
+	}
+}
